@@ -17,6 +17,9 @@ def _driver(ctx, binary, test, name, env, traces, allow_fail=False):
     out = ctx.sub(name)
     rc, o = vlib.run_driver(binary, test, out, ctx.seed, env=env, timeout=900)
     p = os.path.join(out, "trace.ndjson")
+    if os.path.exists(p) and os.path.getsize(p) > 300 << 20:
+        os.remove(p)
+        raise vlib.Infra("driver %s (%s) wrote an unreasonably large trace" % (test, name))
     lines = [ln for ln in vlib.read_lines(p) if ln.strip()] if os.path.exists(p) else []
     if rc != 0:
         # The events before the failure may already tell TLC what went wrong
@@ -72,7 +75,7 @@ def run(ctx):
         mp = os.path.join(out, "meta.json")
         if os.path.exists(mp):
             m = json.load(open(mp))
-            meta["enumerate_%d_threads" % n] = {k: m[k] for k in ("states", "transitions", "diverged_replays", "traces")}
+            meta["enumerate_%d_threads" % n] = {k: m[k] for k in ("states", "transitions", "diverged_replays", "traces", "truncated")}
     out = _driver(ctx, binary, "TestSchedules", "sched", {"VERIF_SCHEDULES": sched}, traces)
     mp = os.path.join(out, "meta.json")
     if os.path.exists(mp):
